@@ -20,6 +20,7 @@ VARIANT_NUM = {
     "Option": {"None": 0, "Some": 1},
     "Result": {"Ok": 0, "Err": 1},
     "ControlFlow": {"Continue": 0, "Break": 1},
+    "Ordering": {"Less": -1, "Equal": 0, "Greater": 1},
 }
 
 
@@ -173,6 +174,10 @@ def explore(body, start_bb, carriers, stop_at=None, track_ret=True, limit=6000, 
             elif r.kind == "disc" and not r.place.proj and r.place.local in car \
                     and car[r.place.local].kind == "enum":
                 c = car[r.place.local]
+                new = Carrier("disc", c.val, c.fam)
+            elif r.kind == "disc" and len(r.place.proj) == 1 and (r.place.local, r.place.proj[0]) in car \
+                    and car[(r.place.local, r.place.proj[0])].kind == "enum":
+                c = car[(r.place.local, r.place.proj[0])]      # a field of a tuple built from carriers
                 new = Carrier("disc", c.val, c.fam)
             elif r.kind == "ref" and not r.place.proj and r.place.local in car:
                 new = Carrier("ref", car[r.place.local])
